@@ -1495,7 +1495,7 @@ func (self *LockDB) GetLockManager(command *protocol.LockCommand) *LockManager {
 		if fastLockManager != nil && fastLockManager.lockKey == command.LockKey && atomic.LoadUint32(&fastLockManager.refCount) != 0xffffffff {
 			return fastLockManager
 		}
-		if atomic.LoadUint32(&fastValue.count) <= 1 {
+		if atomic.LoadUint32(&fastValue.count) == 0 {
 			return nil
 		}
 	} else if fastValueLock == 1 {
@@ -1510,7 +1510,7 @@ func (self *LockDB) GetLockManager(command *protocol.LockCommand) *LockManager {
 		if fastLockManager != nil && fastLockManager.lockKey == command.LockKey && atomic.LoadUint32(&fastLockManager.refCount) != 0xffffffff {
 			return fastLockManager
 		}
-		if atomic.LoadUint32(&fastValue.count) <= 1 {
+		if atomic.LoadUint32(&fastValue.count) == 0 {
 			return nil
 		}
 	} else if atomic.LoadUint32(&fastValue.count) == 0 {
